@@ -34,14 +34,22 @@ def judge(ctx, obs, stats, prop="C08"):
         if why.startswith("StuckSelected"):
             # all answers right, State() still Selected after an accepted deselection: the outside view of known finding F1
             sig = "%s:StuckSelectedAfterDeselect" % prop.lower()
-            g = groups.setdefault(sig, dict(n=0, first=d, why=why))
+            g = groups.setdefault(sig, dict(n=0, first=d, why=why, ungated=0))
             g["n"] += 1
+            if d["mode"] != "f1gated":
+                g["ungated"] += 1
             continue
         bad = int(why[4:]) if why.startswith("Step") and why[4:].isdigit() and int(why[4:]) > 0 else 0
         syms = d["steps"][bad - 1]["syms"] if bad else []
         sig = "c08:%s:%s:%s:%s" % (d["role"], d["mode"], why if not bad else "step", "+".join(syms))
         g = groups.setdefault(sig, dict(n=0, first=d, why=why))
         g["n"] += 1
+    # F1 needs the supervisor goroutine to lag behind the receive goroutine: outside the gated reproduction it is rare. A
+    # deselection that is ineffective in a sizeable share of the ordinary scenarios is something else and is reported as such.
+    ndesel = sum(1 for line in lines if '"DeselectReq"' in line and '"f1gated"' not in line)
+    for sig, g in list(groups.items()):
+        if sig.endswith("StuckSelectedAfterDeselect") and g.get("ungated", 0) > max(3, ndesel // 50):
+            groups["%s:DeselectIneffective" % prop.lower()] = dict(n=g["ungated"], first=g["first"], why=g["why"])
     for sig, g in sorted(groups.items()):
         ctx.violation("live hsmsss answers differ from the E37 transducer (%s), %d scenario(s)" % (sig, g["n"]),
                       dict(binding="B2 scripted peer + acceptor", signature=sig, occurrences=g["n"], scenario=g["first"]))
